@@ -26,55 +26,156 @@ def find_method(crate, adt, name):
             and not f.assoc.get('trait')]
 
 
+def typestate_paths(crate, fn, adt_path, initial, limit=4000):
+    """Abstract interpretation of a resolver function for one initial state of *self.
+
+    Abstract state: the variant currently stored in *self, and for every local that holds a value of an enum (a resolver moved out
+    by mem::replace, an Option / Result built on the way) the variant it was built as.  A switch on the discriminant of a place whose
+    variant is known follows only the feasible arm; every other switch follows all arms.  Returns one record per path to a return
+    or a panic: {'calls': [(block, state of *self at the call)], 'final': state at the end, 'blocks': set, 'end': 'return'|'panic'}."""
+    adt = crate.adts.get(adt_path)
+    vidx = {v['name']: v['idx'] for v in adt['variants']}
+    vname = {v['idx']: v['name'] for v in adt['variants']}
+    out = []
+    # (block, self_state, frozenset(local -> (adt, variant name, vidx)), calls tuple, blocks frozenset)
+    work = [(0, initial, frozenset(), (), frozenset())]
+    steps = 0
+
+    def is_self(place):
+        return place.get('l') == 1 and place.get('p') == ['*']
+
+    def self_ref(operand, known_refs):
+        # a (re)borrow of *self: `&mut *_1`, or a copy/move of such a borrow
+        return operand.get('l') in known_refs and not operand.get('p')
+    while work and steps < limit:
+        steps += 1
+        bb, S, locs, calls, blocks = work.pop()
+        if bb in blocks:
+            continue  # no loops expected; do not spin
+        blocks = blocks | {bb}
+        L = dict(locs)
+        refs = set(k for k, v in L.items() if v == 'REF-SELF')
+        blk = fn.blocks[bb]
+        for st in blk['st']:
+            if st['k'] != 'assign':
+                continue
+            d, rv = st['d'], st['rv']
+            if is_self(d):
+                # *self = <value>
+                if rv['k'] == 'use' and not rv['a'].get('p') and isinstance(L.get(rv['a'].get('l')), tuple) and L[rv['a']['l']][0] == adt_path:
+                    S = L[rv['a']['l']][1]
+                elif rv['k'] == 'agg' and path_matches(rv.get('adt'), adt_path):
+                    S = rv['variant']
+                else:
+                    S = '?'
+                continue
+            if d['p']:
+                continue
+            l = d['l']
+            if rv['k'] == 'agg' and rv.get('ak') == 'adt' and rv.get('variant') is not None:
+                L[l] = (norm(rv['adt']), rv['variant'], rv.get('vidx'))
+            elif rv['k'] == 'ref' and is_self(rv['a']):
+                L[l] = 'REF-SELF'
+            elif rv['k'] == 'ref' and rv['a'].get('p') == ['*'] and L.get(rv['a'].get('l')) == 'REF-SELF':
+                L[l] = 'REF-SELF'
+            elif rv['k'] == 'use' and not rv['a'].get('p') and rv['a'].get('l') in L:
+                L[l] = L[rv['a']['l']]
+            elif rv['k'] == 'use' and rv['a'].get('l') == 1 and not rv['a'].get('p'):
+                L[l] = 'REF-SELF'
+            else:
+                L.pop(l, None)
+        t = blk['t']
+        k = t['k']
+        if k == 'call':
+            if call_matches(t, ['core::mem::replace']) and len(t['args']) == 2 and (L.get(t['args'][0].get('l')) == 'REF-SELF' or t['args'][0].get('l') == 1):
+                newv = L.get(t['args'][1].get('l'))
+                old = S
+                S = newv[1] if isinstance(newv, tuple) and newv[0] == adt_path else '?'
+                if not t['d']['p']:
+                    L[t['d']['l']] = (adt_path, old, vidx.get(old))
+            elif call_matches(t, ['core::mem::take']) and t['args'] and (L.get(t['args'][0].get('l')) == 'REF-SELF'):
+                if not t['d']['p']:
+                    L[t['d']['l']] = (adt_path, S, vidx.get(S))
+                S = '?'
+            elif call_matches(t, ['core::mem::swap']):
+                S = '?'
+            else:
+                if call_matches(t, CLOSURE_CALLS):
+                    calls = calls + ((bb, S),)
+                if not t['d']['p']:
+                    L.pop(t['d']['l'], None)
+            if any(pb == bb for pb, kk, dd, tt in panic_sites(fn)) and t.get('tg') is None:
+                out.append({'calls': list(calls), 'final': S, 'blocks': set(blocks), 'end': 'panic'})
+                continue
+            if t.get('tg') is None:
+                out.append({'calls': list(calls), 'final': S, 'blocks': set(blocks), 'end': 'diverge'})
+                continue
+            work.append((t['tg'], S, frozenset(L.items()), calls, blocks))
+            continue
+        if k == 'return':
+            out.append({'calls': list(calls), 'final': S, 'blocks': set(blocks), 'end': 'return'})
+            continue
+        if k == 'switch':
+            feasible = None
+            for o in origins(fn, t['a']):
+                if o.kind == 'rvalue' and o.stmt['rv']['k'] == 'discr':
+                    pl = o.stmt['rv']['a']
+                    if (pl.get('l') == 1 and pl.get('p') == ['*']) or (pl.get('p') == ['*'] and L.get(pl.get('l')) == 'REF-SELF'):
+                        if S in vidx:
+                            feasible = vidx[S]
+                    elif not pl.get('p') and isinstance(L.get(pl.get('l')), tuple) and L[pl['l']][2] is not None:
+                        feasible = L[pl['l']][2]
+            if feasible is not None:
+                tgt = next((b2 for v, b2 in t['arms'] if v == feasible), t['otherwise'])
+                work.append((tgt, S, frozenset(L.items()), calls, blocks))
+            else:
+                for s2 in fn.succ(bb):
+                    work.append((s2, S, frozenset(L.items()), calls, blocks))
+            continue
+        succs = fn.succ(bb)
+        if not succs:
+            out.append({'calls': list(calls), 'final': S, 'blocks': set(blocks), 'end': 'diverge'})
+        for s2 in succs:
+            work.append((s2, S, frozenset(L.items()), calls, blocks))
+    return out
+
+
 def arity_table(crate, fn, adt_path):
-    """{variant: summary} for a resolver function matching on *self"""
+    """{variant: summary} for a resolver function, from a typestate walk of every path for each initial state of *self"""
     adt = crate.adts.get(adt_path)
     if adt is None:
         return None
-    vidx = {v['name']: v['idx'] for v in adt['variants']}
-    top = None
-    for bb, t in fn.terms('switch'):
-        for o in origins(fn, t['a']):
-            if o.kind == 'rvalue' and o.stmt['rv']['k'] == 'discr' and o.stmt['rv']['a']['l'] == 1 and o.stmt['rv']['a']['p'] == ['*']:
-                if top is None or fn.dominates(bb, top[0]):
-                    top = (bb, t)
-    if top is None:
+    names = [v['name'] for v in adt['variants']]
+    if not any(o.kind == 'rvalue' and o.stmt['rv']['k'] == 'discr' for bb, t in fn.terms('switch') for o in origins(fn, t['a'])):
         return None
-    sb, st = top
     table = {}
-    for name, idx in vidx.items():
-        tgt = None
-        for v, b in st['arms']:
-            if v == idx:
-                tgt = b
-        if tgt is None:
-            tgt = st['otherwise']
-        others = [b for v, b in st['arms'] if v != idx] + ([st['otherwise']] if tgt != st['otherwise'] else [])
-        region = fn.reachable([tgt]) - fn.reachable([b for b in others if b != tgt]) if others else fn.reachable([tgt])
-        # blocks only this arm reaches (shared epilogue excluded)
-        calls = [(bb, fn.blocks[bb]['t']) for bb in sorted(region) if fn.blocks[bb]['t']['k'] == 'call']
-        closure_calls = [(bb, t) for bb, t in calls if call_matches(t, CLOSURE_CALLS)]
-        replaces = [(bb, t) for bb, t in calls if call_matches(t, ['core::mem::replace', 'core::mem::take', 'core::mem::swap'])]
-        self_writes = [bb for bb in sorted(region) for s in fn.blocks[bb]['st'] if s['k'] == 'assign' and s['d']['l'] == 1 and s['d']['p'] == ['*']]
-        summ = {'closure_calls': len(closure_calls), 'writes_never_before_call': False, 'writes_self': bool(replaces or self_writes),
+    for name in names:
+        paths = typestate_paths(crate, fn, adt_path, name)
+        live = [p_ for p_ in paths if p_['end'] == 'return']
+        if not live:
+            return None
+        region = set().union(*[p_['blocks'] for p_ in live])
+        ncalls = max(len(p_['calls']) for p_ in live)
+        call_sites = sorted(set((cb, st_) for p_ in live for cb, st_ in p_['calls']))
+        closure_calls = [(cb, fn.blocks[cb]['t']) for cb in sorted(set(cb for cb, _ in call_sites))]
+        changed = any(p_['final'] != name for p_ in live) or any(st_ != name for _, st_ in call_sites)
+        summ = {'closure_calls': ncalls, 'writes_never_before_call': bool(call_sites) and all(st_ == 'Never' for _, st_ in call_sites) and name != 'Never',
+                'writes_self': changed, 'final_states': sorted(set(p_['final'] for p_ in live)),
                 'returns_never_error': False, 'returns_closure_result': False, 'closure_is_taken_payload': False,
                 'output_passed_unchanged': None, 'panics': []}
-        for bb, t in replaces:
-            wrote_never = any(o.kind == 'agg' and path_matches(o.stmt['rv'].get('adt'), adt_path) and o.stmt['rv']['variant'] == 'Never'
-                              for o in origins(fn, t['args'][1]))
-            on_self = any(o.kind == 'arg' and o.n == 1 for o in origins(fn, t['args'][0]))
-            if wrote_never and on_self and closure_calls and all(fn.dominates(bb, cb) and bb != cb for cb, _ in closure_calls):
-                summ['writes_never_before_call'] = True
-            for cb, ct in closure_calls:
-                if any(o.kind == 'call' and o.bb == bb and o.suffix[:2] == ['as ' + name, '.0'] for o in origins(fn, ct['args'][0])):
-                    summ['closure_is_taken_payload'] = True
-        for bb in sorted(region):
-            for s in fn.blocks[bb]['st']:
-                if s['k'] == 'assign' and s['rv']['k'] == 'agg' and s['rv'].get('variant') == 'Never' and \
-                        path_matches(s['rv'].get('adt'), 'crux_core::core::resolve::ResolveError'):
-                    summ['returns_never_error'] = True
         for cb, ct in closure_calls:
-            # argument tuple carries parameter 2 unchanged
+            src = origins(fn, ct['args'][0])
+            if src and all(o.kind == 'call' and call_matches(o.term, ['core::mem::replace', 'core::mem::take']) and ('as ' + name) in o.suffix for o in src):
+                summ['closure_is_taken_payload'] = True
+        # what the paths of this state return
+        rets = origins(fn, {'l': 0, 'p': []})
+        for p_ in live:
+            for bb in p_['blocks']:
+                for s_ in fn.blocks[bb]['st']:
+                    if s_['k'] == 'assign' and s_['rv']['k'] == 'agg' and s_['rv'].get('variant') == 'Never' and \
+                            path_matches(s_['rv'].get('adt'), 'crux_core::core::resolve::ResolveError'):
+                        summ['returns_never_error'] = True
+        for cb, ct in closure_calls:
             unchanged = False
             for o in origins(fn, ct['args'][1]):
                 if o.kind == 'agg' and o.stmt['rv'].get('ak') == 'tuple':
@@ -82,9 +183,9 @@ def arity_table(crate, fn, adt_path):
                     unchanged = bool(inner) and all(x.kind == 'arg' and x.n == 2 and [t for t in x.suffix if t != '*'] == [] for x in inner)
             summ['output_passed_unchanged'] = unchanged
             res = flows_to(fn, ct['d']['l'], whole_only=True)
-            if ct['d']['l'] == 0 or any(s[0] == 'return' for s in res) or any(
-                    s[0] == 'callarg' and call_matches(s[2], ['core::result::Result::map_err']) and
-                    (s[2]['d']['l'] == 0 or any(x[0] == 'return' for x in flows_to(fn, s[2]['d']['l'], whole_only=True))) for s in res):
+            if ct['d']['l'] == 0 or any(s_[0] == 'return' for s_ in res) or any(
+                    s_[0] == 'callarg' and call_matches(s_[2], ['core::result::Result::map_err']) and
+                    (s_[2]['d']['l'] == 0 or any(x[0] == 'return' for x in flows_to(fn, s_[2]['d']['l'], whole_only=True))) for s_ in res):
                 summ['returns_closure_result'] = True
         summ['panics'] = sorted(set(k for bb in region for (pb, k, d, t) in panic_sites(fn) if pb == bb))
         table[name] = summ
